@@ -76,6 +76,18 @@ fn base_docs(g: &Grammar) -> Vec<(String, Doc)> {
         }
     }
     out.push(("three-modules".to_string(), d2));
+    // B2b: a RECORD_LAYOUT whose position-restricted children are listed out of position order
+    {
+        let (mut d, path) = gen.carrier_v("MODULE", 5, 1);
+        let rl = e("RECORD_LAYOUT", "rl", "c1")
+            .kid(ks("AXIS_PTS_X", &[("position", "2")]))
+            .kid(ks("FNC_VALUES", &[("position", "4")]))
+            .kid(ks("NO_AXIS_PTS_X", &[("position", "1")]))
+            .kid(ks("AXIS_PTS_Y", &[("position", "3")]));
+        d.root.at_mut(&path).children.push(build_elem(&mut gen, g, &rl));
+        d.root.at_mut(&path).children.push(build_elem(&mut gen, g, &e("MEASUREMENT", "mz", "c1")));
+        out.push(("record-layout-out-of-order".to_string(), d));
+    }
     // B3 / B4: IF_DATA with nested blocks, uninterpreted and described by an A2ML block
     for with_a2ml in [false, true] {
         let (mut d3, path) = gen.carrier_v("MODULE", 5, 1);
@@ -261,6 +273,184 @@ fn cuts(label: &str, doc: &Doc, thorough: bool) -> Vec<Tree> {
     out
 }
 
+
+// ------------------------------------------------------------------------------------------------
+// include trees of any shape up to three levels below the main file
+
+#[derive(Debug, Clone)]
+struct Plan {
+    /// children [i, j) of the parent node go to this file
+    run: (usize, usize),
+    /// sub-runs of `run` that go on to files included from this one
+    kids: Vec<Plan>,
+}
+
+/// all sets of at most `max_kids` disjoint sub-runs of [i, j), each with every plan for the levels below
+fn kid_sets(i: usize, j: usize, depth_left: usize, max_kids: usize) -> Vec<Vec<Plan>> {
+    let mut out: Vec<Vec<Plan>> = vec![vec![]];
+    if depth_left == 0 {
+        return out;
+    }
+    // plans for one sub-run
+    let single = |a: usize, b: usize| -> Vec<Plan> { kid_sets(a, b, depth_left - 1, max_kids).into_iter().map(|kids| Plan { run: (a, b), kids }).collect() };
+    for a in i..j {
+        for b in (a + 1)..=j {
+            let firsts = single(a, b);
+            for f in &firsts {
+                out.push(vec![f.clone()]);
+            }
+            if max_kids >= 2 {
+                for a2 in b..j {
+                    for b2 in (a2 + 1)..=j {
+                        for f in &firsts {
+                            for s2 in single(a2, b2) {
+                                out.push(vec![f.clone(), s2]);
+                            }
+                        }
+                    }
+                }
+            }
+        }
+    }
+    out
+}
+
+fn plan_depth(kids: &[Plan]) -> usize {
+    kids.iter().map(|k| 1 + plan_depth(&k.kids)).max().unwrap_or(0)
+}
+
+/// include trees of depth <= 3 over the children of every node of `doc`; `dirs`: directory of a file relative to the
+/// file that includes it, by level (1 = included from main)
+fn deep_cuts(label: &str, doc: &Doc, thorough: bool) -> Vec<Tree> {
+    let toks = doc.tokens();
+    let flattened = render(&toks, &HashMap::new());
+    let mut out = Vec::new();
+    fn parents(n: &Node, path: &mut Vec<usize>, out: &mut Vec<Vec<usize>>) {
+        if !n.children.is_empty() {
+            out.push(path.clone());
+        }
+        for (i, c) in n.children.iter().enumerate() {
+            path.push(i);
+            parents(c, path, out);
+            path.pop();
+        }
+    }
+    let mut ps = Vec::new();
+    parents(&doc.root, &mut vec![], &mut ps);
+    let piece = |a: usize, b: usize| -> String {
+        let mut s = String::new();
+        for t in &toks[a..b] {
+            if t.starts_line && !s.is_empty() {
+                s.push('\n');
+            } else if !s.is_empty() {
+                s.push(' ');
+            }
+            s.push_str(&t.text);
+        }
+        if !s.is_empty() {
+            s.push('\n');
+        }
+        s
+    };
+    // (name of the variant, directory per level, quoted, separator)
+    let variants: Vec<(&str, [&str; 3], bool, char)> = if thorough {
+        vec![("flat", ["", "", ""], true, '/'), ("down", ["l1/", "l2/", "l3/"], true, '/'), ("down-bare-backslash", ["l1/", "l2/", "l3/"], false, '\\'), ("first-level-only", ["sub/", "", ""], false, '/'), ("deepest-only", ["", "", "deep/"], true, '\\')]
+    } else {
+        vec![("flat", ["", "", ""], true, '/'), ("down", ["l1/", "l2/", "l3/"], false, '/')]
+    };
+    for pp in &ps {
+        let n = doc.root.at(pp).children.len();
+        if n > 5 {
+            continue;
+        }
+        let level = match pp.len() {
+            0 => "in-file",
+            1 => "in-project",
+            2 => "in-module",
+            _ => "in-element",
+        };
+        let child_range = |i: usize, j: usize| -> (usize, usize) {
+            let mut p1 = pp.clone();
+            p1.push(i);
+            let mut p2 = pp.clone();
+            p2.push(j - 1);
+            let (a, _) = node_token_range(doc, &p1).unwrap();
+            let (_, b) = node_token_range(doc, &p2).unwrap();
+            (a, b + 1)
+        };
+        for kids in kid_sets(0, n, 3, 2) {
+            let depth = plan_depth(&kids);
+            if kids.is_empty() {
+                continue;
+            }
+            // shapes the hand-written families do not have: three levels, or two includes in an included file, or a file
+            // that consists of an include directive only; quick tier: three-level chains and directive-only files
+            let only_directive = |k: &Plan| k.kids.len() == 1 && k.kids[0].run == k.run;
+            fn any(p: &Plan, f: &dyn Fn(&Plan) -> bool) -> bool {
+                f(p) || p.kids.iter().any(|k| any(k, f))
+            }
+            let has_only = kids.iter().any(|k| any(k, &only_directive));
+            let fan = kids.iter().any(|k| any(k, &|p: &Plan| p.kids.len() >= 2));
+            if depth < 3 && !has_only && !fan {
+                continue;
+            }
+            if !thorough && (fan || kids.len() > 1) {
+                continue;
+            }
+            for (vname, dirs, quoted, sep) in &variants {
+                let mut files: Vec<(String, String)> = Vec::new();
+                let mut counter = 0usize;
+                // renders the content of a file that holds tokens [a, b) minus its kids; returns the text
+                fn emit(
+                    kids: &[Plan], a: usize, b: usize, lvl: usize, dir: &str, dirs: &[&str; 3], quoted: bool, sep: char, counter: &mut usize, files: &mut Vec<(String, String)>,
+                    piece: &dyn Fn(usize, usize) -> String, child_range: &dyn Fn(usize, usize) -> (usize, usize),
+                ) -> String {
+                    let mut text = String::new();
+                    let mut pos = a;
+                    for k in kids {
+                        let (ka, kb) = child_range(k.run.0, k.run.1);
+                        text.push_str(&piece(pos, ka));
+                        *counter += 1;
+                        let rel = format!("{}f{}.a2l", dirs[lvl], *counter);
+                        let path = format!("{dir}{rel}");
+                        let kdir = format!("{dir}{}", dirs[lvl]);
+                        text.push_str(&inc_directive(&rel.replace('/', &sep.to_string()), quoted));
+                        text.push('\n');
+                        let idx = files.len();
+                        files.push((path, String::new()));
+                        let ktext = emit(&k.kids, ka, kb, lvl + 1, &kdir, dirs, quoted, sep, counter, files, piece, child_range);
+                        files[idx].1 = ktext;
+                        pos = kb;
+                    }
+                    text.push_str(&piece(pos, b));
+                    text
+                }
+                files.push(("main.a2l".into(), String::new()));
+                let main = emit(&kids, 0, toks.len(), 0, "", dirs, *quoted, *sep, &mut counter, &mut files, &piece, &child_range);
+                files[0].1 = main;
+                let shape = format!("depth{depth}{}{}", if fan { "+fan" } else { "" }, if has_only { "+directive-only-file" } else { "" });
+                out.push(Tree {
+                    label: format!("{label}: include tree {:?} over the children of {:?} ({vname})", kids.iter().map(plan_str).collect::<Vec<_>>(), pp),
+                    class: format!("deep:{level}:{shape}:{vname}"),
+                    files,
+                    flattened: flattened.clone(),
+                    includes: kids.len(),
+                    a2ml_include: false,
+                });
+            }
+        }
+    }
+    out
+}
+
+fn plan_str(p: &Plan) -> String {
+    if p.kids.is_empty() {
+        format!("{}..{}", p.run.0, p.run.1)
+    } else {
+        format!("{}..{}[{}]", p.run.0, p.run.1, p.kids.iter().map(plan_str).collect::<Vec<_>>().join(","))
+    }
+}
+
 fn a2ml_trees(g: &Grammar) -> Vec<Tree> {
     let mut out = Vec::new();
     let part1 = "struct S { uint; };";
@@ -337,7 +527,15 @@ fn ifdata_inner_trees(g: &Grammar) -> Vec<Tree> {
 pub fn build(g: &Grammar, thorough: bool) -> Vec<Tree> {
     let mut out = Vec::new();
     for (label, doc) in base_docs(g) {
-        out.extend(cuts(&label, &doc, thorough));
+        if label != "record-layout-out-of-order" {
+            out.extend(cuts(&label, &doc, thorough));
+        } else {
+            // position-restricted children listed out of position order: the writer re-orders them across the file boundary
+            out.extend(cuts(&label, &doc, thorough).into_iter().filter(|t| t.class.contains("in-element")));
+        }
+        if label == "four-elements" || label == "three-modules" || label == "record-layout-out-of-order" {
+            out.extend(deep_cuts(&label, &doc, thorough));
+        }
     }
     out.extend(a2ml_trees(g));
     out.extend(ifdata_inner_trees(g));
@@ -554,7 +752,7 @@ pub fn run(tier: &str) -> Run {
     run.require("single: transparent", 150);
     run.require("siblings: transparent", 100);
     run.require("a2ml-include: transparent", 2);
-    run.rule = "for a 4-element module and a 3-module project: every contiguous run of children of every node (modules in PROJECT, elements in MODULE, sub-elements in an element) moved to an include file, optionally with a nested include (a sub-run moved on to a second file included from the first) or a sibling include, x directory of the include file {., sub/, sub/sub2/} x directory of the nested file relative to the first {., inner/} x name syntax {quoted, bare} x separator {/, \\}; the A2ML block including part of its definition; fault cases (missing, directory, empty, no name, self-inclusion, mutual inclusion) in a child process. Oracle: load(main) == load_from_string(flattened) incl. number of diagnostics; write next to the tree and reload gives an equal model and one /include per file; merge_includes() gives an include-free text that reloads equal; faults give an error naming the include, in finite time, in a live process.".into();
+    run.rule = "for a 4-element module and a 3-module project: every contiguous run of children of every node (modules in PROJECT, elements in MODULE, sub-elements in an element) moved to an include file, optionally with a nested include (a sub-run moved on to a second file included from the first) or a sibling include, x directory of the include file {., sub/, sub/sub2/} x directory of the nested file relative to the first {., inner/} x name syntax {quoted, bare} x separator {/, \\}; include trees of every shape up to three levels below the main file (at most two includes per file, including files that consist of one /include directive only and runs at file level) over the same documents x directory layouts {flat, one directory further down per level, first level only, deepest level only}; a RECORD_LAYOUT whose position-restricted children are listed out of position order, cut at every run; the A2ML block including part of its definition; fault cases (missing, directory, empty, no name, self-inclusion, mutual inclusion) in a child process. Oracle: load(main) == load_from_string(flattened) incl. number of diagnostics; write next to the tree and reload gives an equal model and one /include per file; merge_includes() gives an include-free text that reloads equal; faults give an error naming the include, in finite time, in a live process.".into();
     run
 }
 
